@@ -322,6 +322,26 @@ pub mod ffi {
         pub fn describe(&self, w: &mut DiplomatWrite) {
             let _ = write!(w, "tok#{}", self.t.id);
         }
+        /// the write parameter spelled with a named lifetime
+        pub fn describe_named<'a>(&'a self, w: &'a mut DiplomatWrite) {
+            let _ = write!(w, "named#{}", self.t.id);
+        }
+        pub fn opt_describe(&self, some: bool, w: &mut DiplomatWrite) -> Option<()> {
+            let _ = write!(w, "opt#{}", self.t.id);
+            if some {
+                Some(())
+            } else {
+                None
+            }
+        }
+        pub fn try_describe_named<'a>(&self, ok: bool, w: &'a mut DiplomatWrite) -> Result<(), ErrPod> {
+            let _ = write!(w, "trynamed#{}", self.t.id);
+            if ok {
+                Ok(())
+            } else {
+                Err(ErrPod { code: 9 })
+            }
+        }
         pub fn describe_n(&self, n: u32, w: &mut DiplomatWrite) {
             for i in 0..n {
                 let _ = write!(w, "{}é", (b'a' + (i % 26) as u8) as char);
